@@ -24,3 +24,6 @@ chk("C07","chainsim","exploration",
 chk("C14","chainsim","exploration",
  "Seeded transfer-heavy block streams over all amount classes, gas prices and admin counts; sum of balances from the raw state store after every block, per-transfer and fee-split accounting on single-transaction blocks.",
  CN, "deterministic simulation: seeded block streams + conservation oracle over the state store", "DESIGN.md §5 C14")
+chk("C03","chainsim","exploration",
+ "Seeded proof-fault search: appchains bound to Happy / a WASM bit rule / FabricSim, optional relay BitXHub with n validators; proofs valid, refused (plain false or error), absent, hash-mismatched, under-signed; the same IBTPs as plain invocations; validity judged by the harness; invalid => FAILED + twin no-effect; node death and wedges are attributed to the run.",
+ CN+" Rule lifecycle changes between IBTPs (update/logout of the master rule) are not generated yet.", "deterministic simulation: seeded proof-fault sequences + twin no-effect diff + process-death attribution", "DESIGN.md §5 C03")
